@@ -4,6 +4,7 @@ package handlers
 
 import (
 	"context"
+	"sync/atomic"
 
 	"github.com/mimecast/dtail/internal/lcontext"
 	user "github.com/mimecast/dtail/internal/user/server"
@@ -42,4 +43,12 @@ func VerifDecode(u *user.User, chunks [][]byte) (out []VerifDecoded, messages []
 	}
 	h.Shutdown()
 	return
+}
+
+// VerifActiveCommands returns the session's command counter.
+func (h *ServerHandler) VerifActiveCommands() int32 { return atomic.LoadInt32(&h.activeCommands) }
+
+// VerifQueueLens returns len(lines), len(serverMessages), len(maprMessages).
+func (h *ServerHandler) VerifQueueLens() (int, int, int) {
+	return len(h.lines), len(h.serverMessages), len(h.maprMessages)
 }
